@@ -96,6 +96,95 @@ static void put_bytes(const char *tag, const void *p, size_t n)
 	for (i = 0; i < n && i < 6; ++i) printf("%02x", b[i]);
 }
 
+/* ---- the decoder as seen by the readers: delivered bytes only ------------------------------------
+ * do_block(in, size, out, outsize) returning ret > 0 fixes out[0 .. ret).  What a codec leaves in
+ * out[ret .. outsize) is NOT a function of its arguments: zstd copies literals through the literal
+ * buffer of a malloc()ed DCtx and "wild-copies" up to 32 bytes past the end of a match/literal run, so
+ * the tail holds heap leftovers of the process (differs between this process and the model driver's
+ * stub, and may differ between two readers of one process).  The data reader exposes that tail on a
+ * damaged image (file size > what the block expands to).  It is no observable of C10, so the harness
+ * hands the readers a compressor object that forwards every call to the library's object and puts the
+ * caller's own bytes back into out[ret .. outsize) afterwards: calloc()ed block buffers keep their
+ * zeros, malloc()ed / reused buffers keep their stale bytes (missing memset / calloc stay visible).
+ * C10_RAW_CODEC=1 switches the wrapper off. */
+typedef struct {
+	sqfs_compressor_t base;
+	sqfs_compressor_t *inner;
+	sqfs_u8 *snap;
+	size_t cap;
+} tame_cmp_t;
+
+static sqfs_s32 tame_do_block(sqfs_compressor_t *cmp, const sqfs_u8 *in, sqfs_u32 size,
+			      sqfs_u8 *out, sqfs_u32 outsize)
+{
+	tame_cmp_t *t = (tame_cmp_t *)cmp;
+	sqfs_s32 ret;
+	if (outsize > t->cap) {
+		sqfs_u8 *nb = realloc(t->snap, outsize);
+		if (!nb) return t->inner->do_block(t->inner, in, size, out, outsize);
+		t->snap = nb; t->cap = outsize;
+	}
+	if (outsize) memcpy(t->snap, out, outsize);
+	ret = t->inner->do_block(t->inner, in, size, out, outsize);
+	if (ret > 0 && (sqfs_u32)ret < outsize)
+		memcpy(out + ret, t->snap + ret, outsize - (sqfs_u32)ret);
+	return ret;
+}
+
+static void tame_get_configuration(const sqfs_compressor_t *cmp, sqfs_compressor_config_t *cfg)
+{
+	const tame_cmp_t *t = (const tame_cmp_t *)cmp;
+	t->inner->get_configuration(t->inner, cfg);
+}
+
+static int tame_write_options(sqfs_compressor_t *cmp, sqfs_file_t *file)
+{
+	tame_cmp_t *t = (tame_cmp_t *)cmp;
+	return t->inner->write_options(t->inner, file);
+}
+
+static int tame_read_options(sqfs_compressor_t *cmp, sqfs_file_t *file)
+{
+	tame_cmp_t *t = (tame_cmp_t *)cmp;
+	return t->inner->read_options(t->inner, file);
+}
+
+static void tame_destroy(sqfs_object_t *obj)
+{
+	tame_cmp_t *t = (tame_cmp_t *)obj;
+	sqfs_drop(t->inner);
+	free(t->snap);
+	free(t);
+}
+
+static sqfs_compressor_t *tame_wrap(sqfs_compressor_t *inner);
+
+static sqfs_object_t *tame_copy(const sqfs_object_t *obj)
+{
+	const tame_cmp_t *t = (const tame_cmp_t *)obj;
+	sqfs_compressor_t *ic = sqfs_copy(t->inner), *w;
+	if (!ic) return NULL;
+	w = tame_wrap(ic);
+	if (!w) { sqfs_drop(ic); return NULL; }
+	return (sqfs_object_t *)w;
+}
+
+/* takes over the caller's reference to inner; NULL: out of memory (inner untouched) */
+static sqfs_compressor_t *tame_wrap(sqfs_compressor_t *inner)
+{
+	tame_cmp_t *t = calloc(1, sizeof(*t));
+	if (!t) return NULL;
+	t->inner = inner;
+	t->base.base.refcount = 1;
+	t->base.base.destroy = tame_destroy;
+	t->base.base.copy = tame_copy;
+	t->base.get_configuration = tame_get_configuration;
+	t->base.write_options = tame_write_options;
+	t->base.read_options = tame_read_options;
+	t->base.do_block = tame_do_block;
+	return &t->base;
+}
+
 static void rctx_close(rctx_t *c)
 {
 	if (c->idtbl) sqfs_drop(c->idtbl);
@@ -129,6 +218,10 @@ static int rctx_open(rctx_t *c)
 				    SQFS_COMP_FLAG_UNCOMPRESS);
 	ret = sqfs_compressor_create(&cfg, &c->cmp);
 	if (ret) { c->open_err = 3; c->open_code = ret; return -1; }
+	if (!getenv("C10_RAW_CODEC") || strcmp(getenv("C10_RAW_CODEC"), "1") != 0) {
+		sqfs_compressor_t *w = tame_wrap(c->cmp);
+		if (w) c->cmp = w;
+	}
 	if (c->super.flags & SQFS_FLAG_COMPRESSOR_OPTIONS) {
 		ret = c->cmp->read_options(c->cmp, c->file);
 		if (ret) { c->open_err = 4; c->open_code = ret; return -1; }
